@@ -134,7 +134,8 @@ def observe_family(fam, engines, lexer_fn):
                 td = getattr(e, "template_debug", None)
                 if td:
                     rec["debug"] = [td.get("line"), td.get("during"), td.get("name"), td.get("start"), td.get("end")]
-            rec["ctx_after"] = [len(ctx.dicts), sorted((k, repr(v)) for k, v in ctx.flatten().items()), len(ctx.render_context.dicts)]
+            rec["ctx_after"] = [len(ctx.dicts), sorted((k, repr(v)) for k, v in ctx.flatten().items()), len(ctx.render_context.dicts),
+                                str(getattr(ctx, "template_name", None)), ctx.template is None]
             obs["runs"].append(rec)
     return obs
 
